@@ -1,6 +1,8 @@
 import GoLevel.Model.Key
 import GoLevel.Proofs.TableTop
 import GoLevel.Proofs.BlockIterSlice
+import GoLevel.Proofs.TableMeta
+import GoLevel.Proofs.TableFooter
 /-!
 # Property C13: sorted tables round-trip, lookups, offsets, damage detection
 
@@ -397,6 +399,320 @@ example : readRawBlock rdLE ((withTrailer rdLE [1, 2, 3]).set 1 9) ⟨0, 3⟩ tr
 example : readRawBlock (fun bs => bs.length % 7) ((withTrailer (fun bs => bs.length % 7) [1, 2, 3]).set 1 9) ⟨0, 3⟩ true
     = some [1, 9, 3] := by decide
 
+/-! ## (i) the reader repairs of wp64: damaged metaindex block, footer handles, short blocks
+
+Findings 1, 2 and 5 of the Recover hunt wp60, repaired in `table/reader.go` / `table/table.go`.  The reader model
+carries the repaired places as switches (`ReaderFix`, `Model/Table.lean`); the theorems are about
+`ReaderFix.repaired`, which is the code at hand by `code_reader_repaired` (regenerated facts). -/
+
+/-- the reader of the working tree is the repaired one: the four facts `tools/extract` reads off `NewReader`,
+`readRawBlock` and `decodeBlockHandle` -/
+theorem code_reader_repaired : ReaderFix.code = ReaderFix.repaired := by decide
+
+/-- **Finding 1 repaired (any content).**  Take a written table, cut it at the metaindex handle of its footer as
+`pre ‖ M ‖ post` (`M` = payload ‖ type ‖ checksum of the metaindex block) and put ANY bytes `M'` of the same length
+there that do not read as a block (checksum mismatch, unknown type, undecodable).  `NewReader` still constructs a
+reader, without filter and with `dataEnd` from the footer, and `Find` (filtered or not), `Get`, range iteration and
+full iteration return exactly what the undamaged table returns. -/
+theorem damaged_metaindex_block_costs_only_the_filter (cfg : TableCfg) (hok : CfgOK cfg) (kvs : List KV)
+    (hs : SmallKV kvs) (hsorted : StrictSorted cfg.cmp kvs) (hk : TailKeysNonempty kvs)
+    (hsz : (Table.write cfg kvs).length < 2 ^ 32) (verify : Bool)
+    (mbh ibh : BH) (hfh : Table.footerHandles (Table.write cfg kvs) = some (mbh, ibh))
+    (pre M M' post : Bytes) (hsplit : Table.write cfg kvs = pre ++ M ++ post) (hpre : pre.length = mbh.offset)
+    (hMl : M.length = mbh.length + Gen.blockTrailerLen) (hM' : M'.length = M.length)
+    (hbad : readBlock cfg.cksum (pre ++ M' ++ post) mbh true = none) :
+    ∃ t0 t, Table.open cfg verify (Table.write cfg kvs) = some t0 ∧
+      Table.open cfg verify (pre ++ M' ++ post) = some t ∧ t.filter = none ∧ t.dataEnd = mbh.offset ∧
+      (∀ key filtered, t.find key filtered = t0.find key false) ∧
+      (∀ key, t.get key = t0.get key) ∧
+      (∀ start limit, t.entriesInRange start limit = t0.entriesInRange start limit) ∧
+      t.entries = t0.entries := by
+  obtain ⟨cs, fb, hfile, _, hfh', hdam⟩ := damaged_meta_of_write cfg hok kvs hs hsorted hk hsz verify
+  rw [hfh'] at hfh
+  obtain ⟨rfl, rfl⟩ : metaBHOf cfg cs fb = mbh ∧ indexBHOf cfg cs fb = ibh := by
+    have := Option.some.inj hfh
+    exact ⟨congrArg Prod.fst this, congrArg Prod.snd this⟩
+  have e := split_at_meta cfg cs fb pre M post (hfile ▸ hsplit) hpre (by rw [hMl]; rfl) M'
+  rw [e] at hbad ⊢
+  obtain ⟨t, ho, hcmp, hflt, hde, hf, hr⟩ := hdam M' (by rw [hM', hMl]; rfl) hbad
+  obtain ⟨t0, ho0, h1, h2, h3, h4⟩ := same_answers cfg hok kvs hs hsorted hk hsz verify t hcmp hf hr
+  exact ⟨t0, t, ho0, ho, hflt, hde, h1, h2, h3, h4⟩
+
+/-- **Finding 1 repaired (one altered byte).**  With a checksum that detects single-position changes (CRC32C does,
+C12/C13(g)), altering ANY one byte of the metaindex block of a written table — payload, type byte or stored
+checksum — leaves a table that `NewReader` opens without filter and that answers `Find` (filtered or not), `Get`,
+range iteration and full iteration exactly like the undamaged table. -/
+theorem damaged_metaindex_costs_only_the_filter (cfg : TableCfg) (hok : CfgOK cfg) (hd : DetectsSingle cfg.cksum)
+    (kvs : List KV) (hs : SmallKV kvs) (hsorted : StrictSorted cfg.cmp kvs) (hk : TailKeysNonempty kvs)
+    (hsz : (Table.write cfg kvs).length < 2 ^ 32) (verify : Bool)
+    (mbh ibh : BH) (hfh : Table.footerHandles (Table.write cfg kvs) = some (mbh, ibh))
+    (i : Nat) (b : UInt8) (hlo : mbh.offset ≤ i) (hhi : i < mbh.offset + mbh.length + Gen.blockTrailerLen)
+    (hne : (Table.write cfg kvs)[i]? ≠ some b) :
+    ∃ t0 t, Table.open cfg verify (Table.write cfg kvs) = some t0 ∧
+      Table.open cfg verify ((Table.write cfg kvs).set i b) = some t ∧ t.filter = none ∧ t.dataEnd = mbh.offset ∧
+      (∀ key filtered, t.find key filtered = t0.find key false) ∧
+      (∀ key, t.get key = t0.get key) ∧
+      (∀ start limit, t.entriesInRange start limit = t0.entriesInRange start limit) ∧
+      t.entries = t0.entries := by
+  obtain ⟨cs, fb, hfile, hsz', hfh', hdam⟩ := damaged_meta_of_write cfg hok kvs hs hsorted hk hsz verify
+  rw [hfh'] at hfh
+  obtain ⟨rfl, rfl⟩ : metaBHOf cfg cs fb = mbh ∧ indexBHOf cfg cs fb = ibh := by
+    have := Option.some.inj hfh
+    exact ⟨congrArg Prod.fst this, congrArg Prod.snd this⟩
+  rw [hfile] at hne
+  obtain ⟨hset, hbad⟩ := meta_byte_unreadable cfg hok.ck hd cs fb hsz' i b hlo hhi hne
+  rw [hset] at hbad
+  have hlen : ((withTrailer cfg.cksum (metaB cfg cs fb)).set (i - (metaBHOf cfg cs fb).offset) b).length =
+      (metaB cfg cs fb).length + 5 := by rw [List.length_set, withTrailer_length]
+  obtain ⟨t, ho, hcmp, hflt, hde, hf, hr⟩ := hdam _ hlen hbad
+  obtain ⟨t0, ho0, h1, h2, h3, h4⟩ := same_answers cfg hok kvs hs hsorted hk hsz verify t hcmp hf hr
+  refine ⟨t0, t, ho0, ?_, hflt, hde, h1, h2, h3, h4⟩
+  rw [hfile, hset]; exact ho
+
+/-- **Finding 2 repaired.**  `NewReader` constructs a reader only with both footer handles inside the file: they
+are the handles the footer names, and each block with its trailer ends within the file.  If a footer handle does not
+lie in front of the footer the reader carries the FOOTER error (before anything is read).  And no buffer longer than
+the file is ever requested from the pool for the two blocks the footer names — whatever the pool's buffers hold. -/
+theorem footer_handles_in_file (cfg : TableCfg) (verify : Bool) (file : Bytes) :
+    (∀ t, Table.open cfg verify file = some t →
+      Table.footerHandles file = some (t.metaBH, t.indexBH) ∧
+      t.metaBH.offset + t.metaBH.length + Gen.blockTrailerLen ≤ file.length ∧
+      t.indexBH.offset + t.indexBH.length + Gen.blockTrailerLen ≤ file.length) ∧
+    (∀ m i, Table.footerHandles file = some (m, i) →
+      ¬ (m.offset + m.length ≤ file.length - Gen.footerLen ∧ i.offset + i.length ≤ file.length - Gen.footerLen) →
+      Table.openE cfg verify file = .error .footer) ∧
+    (∀ stale n, n ∈ (Table.openX .repaired stale cfg verify file).bufs → n ≤ file.length) := by
+  have key : ∀ stale, (∀ m i, Table.footerHandlesX .repaired file = .ok (m, i) →
+      ((m.inFile (file.length - Gen.footerLen) && i.inFile (file.length - Gen.footerLen)) = false →
+        (Table.openX .repaired stale cfg verify file).res = .error .footer ∧
+        (Table.openX .repaired stale cfg verify file).bufs = []) ∧
+      ((m.inFile (file.length - Gen.footerLen) && i.inFile (file.length - Gen.footerLen)) = true →
+        (∀ n ∈ (Table.openX .repaired stale cfg verify file).bufs,
+          n = m.length + Gen.blockTrailerLen ∨ n = i.length + Gen.blockTrailerLen) ∧
+        ∀ t, (Table.openX .repaired stale cfg verify file).res = .ok t → t.metaBH = m ∧ t.indexBH = i)) := by
+    intro stale m i h
+    unfold Table.openX
+    rw [h]
+    exact openBody_repaired stale cfg verify file m i
+  refine ⟨?_, ?_, ?_⟩
+  · intro t ho
+    unfold Table.open Table.openE at ho
+    cases hfx : Table.footerHandlesX .repaired file with
+    | error e =>
+      unfold Table.openX at ho
+      simp [hfx] at ho
+    | ok p =>
+      obtain ⟨m, i⟩ := p
+      have hl := footerHandlesX_length _ _ _ hfx
+      obtain ⟨k1, k2⟩ := key [] m i hfx
+      cases hin : (m.inFile (file.length - Gen.footerLen) && i.inFile (file.length - Gen.footerLen)) with
+      | false => rw [(k1 hin).1] at ho; simp at ho
+      | true =>
+        cases hres : (Table.openX .repaired [] cfg verify file).res with
+        | error e => rw [hres] at ho; simp at ho
+        | ok t' =>
+          rw [hres] at ho
+          have : t' = t := Option.some.inj ho
+          subst this
+          obtain ⟨hm, hi⟩ := (k2 hin).2 t' hres
+          simp only [Bool.and_eq_true] at hin
+          refine ⟨by unfold Table.footerHandles; rw [hfx, hm, hi], ?_, ?_⟩
+          · rw [hm]; exact inFile_bound m _ hl hin.1
+          · rw [hi]; exact inFile_bound i _ hl hin.2
+  · intro m i hfh hout
+    unfold Table.footerHandles at hfh
+    cases hfx : Table.footerHandlesX .repaired file with
+    | error e => rw [hfx] at hfh; simp at hfh
+    | ok p =>
+      rw [hfx] at hfh
+      have : p = (m, i) := Option.some.inj hfh
+      subst this
+      have hin : (m.inFile (file.length - Gen.footerLen) && i.inFile (file.length - Gen.footerLen)) = false := by
+        cases h : (m.inFile (file.length - Gen.footerLen) && i.inFile (file.length - Gen.footerLen)) with
+        | false => rfl
+        | true =>
+          exfalso; apply hout
+          simp only [BH.inFile, Bool.and_eq_true, decide_eq_true_eq] at h
+          omega
+      exact ((key [] m i hfx).1 hin).1
+  · intro stale n hn
+    cases hfx : Table.footerHandlesX .repaired file with
+    | error e =>
+      unfold Table.openX at hn
+      simp [hfx] at hn
+    | ok p =>
+      obtain ⟨m, i⟩ := p
+      have hl := footerHandlesX_length _ _ _ hfx
+      obtain ⟨k1, k2⟩ := key stale m i hfx
+      cases hin : (m.inFile (file.length - Gen.footerLen) && i.inFile (file.length - Gen.footerLen)) with
+      | false => rw [(k1 hin).2] at hn; simp at hn
+      | true =>
+        have hb := (k2 hin).1 n hn
+        simp only [Bool.and_eq_true] at hin
+        have b1 := inFile_bound m _ hl hin.1
+        have b2 := inFile_bound i _ hl hin.2
+        omega
+
+/-- **Finding 5 repaired.**  A block handle that reaches beyond the end of the file is a corrupted block — with
+and without checksum verification, for `readRawBlock`, `readBlock`, the data-block read of an open reader, and for
+the reader under the switches with repair 5 in, WHATEVER the recycled pool buffer holds (`stale`). -/
+theorem short_block_is_corruption (cksum : Bytes → Nat) (file : Bytes) (bh : BH) (verify : Bool)
+    (h : file.length < bh.offset + bh.length + Gen.blockTrailerLen) :
+    readRawBlock cksum file bh verify = none ∧ readBlock cksum file bh verify = none ∧
+      (∀ fx stale, fx.shortReadIsCorruption = true → readBlockX fx stale cksum file bh verify = none) ∧
+      (∀ t : TableR, t.file = file → t.cksum = cksum → t.dataBlock bh = none) := by
+  refine ⟨readRawBlock_short cksum file bh verify h, readBlock_short cksum file bh verify h, ?_, ?_⟩
+  · intro fx stale hfx
+    unfold readBlockX
+    rw [hfx, if_pos rfl]
+    exact readBlock_short cksum file bh verify h
+  · intro t hf hc
+    unfold TableR.dataBlock
+    rw [hf, hc]
+    exact readBlock_short cksum file bh t.verify h
+
+/-! ### non-vacuity, and the code as found (decided traces of the reader with a repair switched off) -/
+
+/-- byte sum modulo 2^32: a toy checksum that is a 32-bit value AND detects every single altered position -/
+def bsum : Bytes → Nat
+  | [] => 0
+  | x :: t => x.toNat + bsum t
+
+theorem bsum_set : ∀ (l : Bytes) (i : Nat) (b : UInt8) (h : i < l.length),
+    bsum (l.set i b) + l[i].toNat = bsum l + b.toNat := by
+  intro l
+  induction l with
+  | nil => intro i b h; simp at h
+  | cons x t ih =>
+    intro i b h
+    cases i with
+    | zero => simp only [List.set_cons_zero, bsum, List.getElem_cons_zero]; omega
+    | succ j =>
+      simp only [List.set_cons_succ, bsum, List.getElem_cons_succ]
+      have := ih j b (by simpa using h)
+      omega
+
+theorem bsum_detects : DetectsSingle (fun bs => bsum bs % 4294967296) := by
+  intro bs i b h hne
+  have h1 := bsum_set bs i b h
+  have h2 : b.toNat ≠ bs[i].toNat := fun e => hne (UInt8.toNat_inj.mp e)
+  have h3 := b.toNat_lt
+  have h4 := bs[i].toNat_lt
+  simp only
+  omega
+
+/-- the example table with the toy filter and the byte-sum checksum: 229 bytes, filter block at 84, metaindex block
+`⟨123, 22⟩` (bytes 123 … 149 with the trailer), index block `⟨150, 26⟩` -/
+def exCfgS : TableCfg := { exCfgF with cksum := fun bs => bsum bs % 4294967296 }
+
+theorem exCfgS_ok : CfgOK exCfgS :=
+  ⟨bytesCompare_lawful, by intro a b d _ h; simp [exCfgS, exCfgF, exCfg] at h, by intro b d h; simp [exCfgS, exCfgF, exCfg] at h,
+   by intro bs; simp only [exCfgS]; omega⟩
+
+example : Table.footerHandles (Table.write exCfgS exKVs) = some (⟨123, 22⟩, ⟨150, 26⟩) := by decide +kernel
+
+-- byte 130 (inside the metaindex payload, the `e` of "filter.") altered: the table opens, without filter, and answers
+-- like the undamaged one, which does have its filter
+example : ∃ t0 t, Table.open exCfgS true (Table.write exCfgS exKVs) = some t0 ∧
+    Table.open exCfgS true ((Table.write exCfgS exKVs).set 130 9) = some t ∧ t.filter = none ∧
+    (∀ key filtered, t.find key filtered = t0.find key false) ∧
+    (∀ start limit, t.entriesInRange start limit = t0.entriesInRange start limit) :=
+  let ⟨t0, t, h0, h1, h2, _, h3, _, h4, _⟩ := damaged_metaindex_costs_only_the_filter exCfgS exCfgS_ok bsum_detects exKVs
+    exKVs_small exKVs_sorted exKVs_keys (by decide +kernel) true ⟨123, 22⟩ ⟨150, 26⟩ (by decide +kernel) 130 9
+    (by decide) (by decide) (by decide +kernel)
+  ⟨t0, t, h0, h1, h2, h3, h4⟩
+
+example : (Table.open exCfgS true (Table.write exCfgS exKVs)).map (fun t => t.filter.isSome) = some true := by
+  decide +kernel
+
+-- the same damage on the code AS FOUND (repair 1 off, the others in): the reader carries the metaindex block's
+-- error for good — every read of the table fails, Recover drops the table
+example : (Table.openX ⟨false, true, true, true⟩ [] exCfgS true ((Table.write exCfgS exKVs).set 130 9)).err
+    = some .metaBlock := by decide +kernel
+
+example : (Table.openX .repaired [] exCfgS true ((Table.write exCfgS exKVs).set 130 9)).err = none := by
+  decide +kernel
+
+-- any content: 27 bytes `0xff` in the place of the metaindex block (unknown block type, wrong checksum)
+example : ∃ t0 t, Table.open exCfgS false (Table.write exCfgS exKVs) = some t0 ∧
+    Table.open exCfgS false ((Table.write exCfgS exKVs).take 123 ++ List.replicate 27 255 ++
+      (Table.write exCfgS exKVs).drop 150) = some t ∧ t.filter = none ∧ t.entries = t0.entries :=
+  let ⟨t0, t, h0, h1, h2, _, _, _, _, h3⟩ := damaged_metaindex_block_costs_only_the_filter exCfgS exCfgS_ok exKVs
+    exKVs_small exKVs_sorted exKVs_keys (by decide +kernel) false ⟨123, 22⟩ ⟨150, 26⟩ (by decide +kernel)
+    ((Table.write exCfgS exKVs).take 123) (((Table.write exCfgS exKVs).drop 123).take 27) (List.replicate 27 255)
+    ((Table.write exCfgS exKVs).drop 150) (by decide +kernel) (by decide +kernel) (by decide +kernel) (by decide +kernel)
+    (by decide +kernel)
+  ⟨t0, t, h0, h1, h2, h3⟩
+
+/-- the example table of `exCfg` (176 bytes: metaindex `⟨84, 8⟩`, index `⟨97, 26⟩`) with another footer -/
+def exRefoot (m i : BH) : Bytes := (Table.write exCfg exKVs).take 128 ++ TableWriter.footer m i
+
+example : exRefoot ⟨84, 8⟩ ⟨97, 26⟩ = Table.write exCfg exKVs := by decide +kernel
+
+-- a metaindex handle beyond the end of the file (offset 1000): the footer error, nothing requested from the pool
+example : (Table.openX .repaired [] exCfg true (exRefoot ⟨1000, 8⟩ ⟨97, 26⟩)).err = some .footer ∧
+    (Table.openX .repaired [] exCfg true (exRefoot ⟨1000, 8⟩ ⟨97, 26⟩)).bufs = [] := by decide +kernel
+
+-- … an index handle whose length reaches into the footer
+example : (Table.openX .repaired [] exCfg true (exRefoot ⟨84, 8⟩ ⟨97, 32⟩)).err = some .footer := by decide +kernel
+
+example : Table.footerHandles (exRefoot ⟨1000, 8⟩ ⟨97, 26⟩) = some (⟨1000, 8⟩, ⟨97, 26⟩) ∧
+    Table.openE exCfg true (exRefoot ⟨1000, 8⟩ ⟨97, 26⟩) = .error .footer :=
+  ⟨by decide +kernel, (footer_handles_in_file exCfg true _).2.1 ⟨1000, 8⟩ ⟨97, 26⟩ (by decide +kernel) (by decide +kernel)⟩
+
+-- the code AS FOUND on that file (finding 5): the short read goes unnoticed and the checksum is verified over what
+-- the recycled buffer holds.  If that is the (byte-identical) metaindex block of the table read before, the table
+-- with the damaged footer is ACCEPTED; with a zeroed buffer it is rejected with the metaindex block's error
+example : (Table.openX .asFound (withTrailer exCfg.cksum (Block.build 2 [])) exCfg true (exRefoot ⟨1000, 8⟩ ⟨97, 26⟩)).err
+    = none := by decide +kernel
+
+example : (Table.openX .asFound [] exCfg true (exRefoot ⟨1000, 8⟩ ⟨97, 26⟩)).err = some .metaBlock := by decide +kernel
+
+-- a footer-only file (48 bytes, intact magic) whose metaindex handle claims 2^62 bytes (finding 2).  As found (only
+-- the short-read repair in, so that the trace ends): the reader asks the pool for 2^62 + 5 bytes — the Go runtime
+-- panics in `makeslice`; repaired: the footer error, nothing requested
+example : (TableWriter.footer ⟨0, 2 ^ 62⟩ ⟨0, 0⟩).length = 48 := by decide +kernel
+
+example : (Table.openX ⟨false, false, true, true⟩ [] exCfg true (TableWriter.footer ⟨0, 2 ^ 62⟩ ⟨0, 0⟩)).bufs = [2 ^ 62 + 5] ∧
+    (Table.openX ⟨false, false, true, true⟩ [] exCfg true (TableWriter.footer ⟨0, 2 ^ 62⟩ ⟨0, 0⟩)).err = some .metaBlock := by
+  decide +kernel
+
+example : (Table.openX .repaired [] exCfg true (TableWriter.footer ⟨0, 2 ^ 62⟩ ⟨0, 0⟩)).bufs = [] ∧
+    (Table.openX .repaired [] exCfg true (TableWriter.footer ⟨0, 2 ^ 62⟩ ⟨0, 0⟩)).err = some .footer := by decide +kernel
+
+-- with repairs 1 and 5 but not 2 the same file would be opened (no filter, empty index handle at 0 …): the request
+-- for 2^62 + 5 bytes is still made
+example : (Table.openX ⟨true, false, true, true⟩ [] exCfg true (TableWriter.footer ⟨0, 2 ^ 62⟩ ⟨0, 0⟩)).bufs.head? = some (2 ^ 62 + 5) := by
+  decide +kernel
+
+/-- a footer (intact magic) that starts with an 11-byte varint: `binary.Uvarint` reports an overflow -/
+def exOverflowFooter : Bytes := List.replicate 11 255 ++ List.replicate 29 0 ++ Gen.tableMagic
+
+example : exOverflowFooter.length = Gen.footerLen := by decide
+
+-- `decodeBlockHandle` as found uses the negative count as a slice index (panic); repaired: a bad handle
+example : BH.decodeGo false exOverflowFooter = .panics ∧ BH.decodeGo true exOverflowFooter = .bad := by decide +kernel
+
+def errOf {α : Type} : Except OpenErr α → Option OpenErr
+  | .ok _ => none
+  | .error e => some e
+
+example : errOf (Table.footerHandlesX .asFound exOverflowFooter) = some .panics ∧
+    errOf (Table.footerHandlesX .repaired exOverflowFooter) = some .footer := by decide +kernel
+
+-- the second varint overflowing: as found the caller gets a negative count with a half-decoded handle
+example : BH.decodeGo false (1 :: List.replicate 11 255) = .neg ⟨1, 0⟩ ∧
+    BH.decodeGo true (1 :: List.replicate 11 255) = .bad := by decide +kernel
+
+-- finding 5 on a single block: the file ends inside the block.  Repaired: corruption, whatever the buffer holds;
+-- as found: the block the buffer held before is returned
+example : readBlockX .repaired (withTrailer exCfg.cksum (Block.build 2 exKVs)) exCfg.cksum [1, 2, 3] ⟨0, (Block.build 2 exKVs).length⟩ true
+    = none :=
+  (short_block_is_corruption exCfg.cksum [1, 2, 3] ⟨0, (Block.build 2 exKVs).length⟩ true (by decide +kernel)).2.2.1 _ _ rfl
+
+example : (readBlockX .asFound (withTrailer exCfg.cksum (Block.build 2 exKVs)) exCfg.cksum [] ⟨0, (Block.build 2 exKVs).length⟩ true).isSome
+    = true := by decide +kernel
+
 /-! ## compressed blocks (reader side; executable model only, tied by the differential) -/
 
 -- literal "ab", then an overlapping copy (offset 2, length 8): "ababababab"
@@ -417,7 +733,9 @@ def GoLevel.C13.theorems : List String :=
    "GoLevel.C13.table_range_spec", "GoLevel.C13.table_find_spec", "GoLevel.C13.table_get_spec", "GoLevel.C13.offsetOf_monotone",
    "GoLevel.C13.filter_partition", "GoLevel.C13.table_filtered_find_stored", "GoLevel.C13.block_damage_detected",
    "GoLevel.C13.block_iter_refines_cursor", "GoLevel.C13.block_iter_slice_refines_cursor",
-   "GoLevel.C13.block_iter_range_refines_cursor"]
+   "GoLevel.C13.block_iter_range_refines_cursor", "GoLevel.C13.code_reader_repaired",
+   "GoLevel.C13.damaged_metaindex_block_costs_only_the_filter", "GoLevel.C13.damaged_metaindex_costs_only_the_filter",
+   "GoLevel.C13.footer_handles_in_file", "GoLevel.C13.short_block_is_corruption"]
 
 #print axioms GoLevel.C13.block_decode_build
 #print axioms GoLevel.C13.block_seek_spec
@@ -432,3 +750,8 @@ def GoLevel.C13.theorems : List String :=
 #print axioms GoLevel.C13.block_iter_refines_cursor
 #print axioms GoLevel.C13.block_iter_slice_refines_cursor
 #print axioms GoLevel.C13.block_iter_range_refines_cursor
+#print axioms GoLevel.C13.code_reader_repaired
+#print axioms GoLevel.C13.damaged_metaindex_block_costs_only_the_filter
+#print axioms GoLevel.C13.damaged_metaindex_costs_only_the_filter
+#print axioms GoLevel.C13.footer_handles_in_file
+#print axioms GoLevel.C13.short_block_is_corruption
